@@ -101,4 +101,19 @@ def main():
         print('NOT LISTED:', h, s)
     return 1 if missing else 0
 
+def table():
+    kf = json.load(open(KF))
+    rows = ['| id | property | status | commit | what |', '|---|---|---|---|---|']
+    for f in sorted(kf['findings'], key=lambda x: (x['property'], x['id'])):
+        rows.append('| %s | %s | %s | %s | %s |' % (f['id'], f['property'], f['status'], f.get('commit', ''), f['what'].replace('|', '/')[:220]))
+    d = open('/verif/DESIGN.md').read()
+    a, b = d.index('<!-- FINDINGS-BEGIN -->'), d.index('<!-- FINDINGS-END -->')
+    d = d[:a] + '<!-- FINDINGS-BEGIN -->\n' + '\n'.join(rows) + '\n' + d[b:]
+    open('/verif/DESIGN.md', 'w').write(d)
+    print(len(rows) - 2, 'findings written to DESIGN.md')
+
+
+if len(sys.argv) > 1 and sys.argv[1] == 'table':
+    table()
+    sys.exit(0)
 sys.exit(main())
